@@ -6,6 +6,7 @@ CONSTANTS
   StrLens = {0, 5}
   CallocShapes <- ShapesQuick
   SrcOffsets = {0}
+  CallocWraps <- WrapsAll
   HugeSizes <- HugeAll
   Levels = {0, 1, 3, 4, 5}
   Obs <- ObsEmit
